@@ -227,6 +227,7 @@ func CheckC07(c *Ctx) {
 	run.Trusted = []string{"go/types", "specification tables in rules/c07_c08.go (DESIGN appendix C)", "closing prices are positive (the level 0 encodes 'not invested')"}
 
 	c.compoundRegistries()
+	c.decoratorInputs()
 	// Inverse
 	if fi := c.fn("strategy/decorator", "InverseStrategy", "Compute"); fi != nil {
 		info := fi.Pkg.TypesInfo
@@ -1646,4 +1647,95 @@ func (c *Ctx) compoundRegistries() {
 	}
 	run.Count("compound_registries", n)
 	run.Floor("compound_registries", 2)
+}
+
+// decoratorInputs: the step of a decorator is compared with the documented transducer; what the
+// transducer runs ON is decided here. In the Compute of every decorator the action stream handed
+// to the stage that carries the closure (helper.Map / helper.Operate) is the wrapped strategy's own
+// Compute result - no stage in between (a NormalizeActions in front of No-Loss removes the
+// standing Sell the decorator is documented to act on) - and, where a second stream is taken, it
+// is the closings of the same snapshots.
+func (c *Ctx) decoratorInputs() {
+	run := c.Run
+	run.Explanation += " The decorators' closures are fed the wrapped strategy's own Compute result (no stage in between) and the closings of the same snapshots."
+	n := 0
+	for _, tn := range []string{"InverseStrategy", "NoLossStrategy", "StopLossStrategy"} {
+		fi := c.fn("strategy/decorator", tn, "Compute")
+		if fi == nil || fi.Decl.Body == nil {
+			continue
+		}
+		info := fi.Pkg.TypesInfo
+		site := "strategy/decorator.(*" + tn + ").Compute"
+		var stage *ast.CallExpr
+		for _, body := range c.familyBodies(fi) {
+			ast.Inspect(body, func(nd ast.Node) bool {
+				call, ok := nd.(*ast.CallExpr)
+				if !ok || stage != nil {
+					return true
+				}
+				name := calleeName(info, call)
+				if !(strings.HasSuffix(name, "helper.Map") || strings.HasSuffix(name, "helper.Operate")) {
+					return true
+				}
+				for _, a := range call.Args {
+					if funcLitOf(info, fi.Decl, a) != nil {
+						stage = call
+					}
+				}
+				return true
+			})
+		}
+		if stage == nil {
+			continue // the decision-table rule reports the missing closure
+		}
+		n++
+		why := ""
+		streams := 0
+		for _, a := range stage.Args {
+			t := info.TypeOf(a)
+			if t == nil {
+				continue
+			}
+			ch, isChan := t.Underlying().(*types.Chan)
+			if !isChan {
+				continue
+			}
+			streams++
+			o, _ := c.origin(info, fi.Decl, a, 0)
+			call, isCall := ast.Unparen(o).(*ast.CallExpr)
+			if nm, isNamed := ch.Elem().(*types.Named); isNamed && nm.Obj().Name() == "Action" {
+				// the wrapped strategy's Compute
+				good := false
+				if isCall {
+					if sel, isSel := call.Fun.(*ast.SelectorExpr); isSel && sel.Sel.Name == "Compute" {
+						if fn := callee(info, call); fn != nil && fn.Pkg() != nil && strings.HasSuffix(fn.Pkg().Path(), "/strategy") {
+							if inner, isInner := sel.X.(*ast.SelectorExpr); isInner {
+								if v, isF := info.ObjectOf(inner.Sel).(*types.Var); isF && v.IsField() {
+									good = true
+								}
+							}
+						}
+					}
+				}
+				if !good {
+					why = "the actions the decorator works on are " + short(exprString(o), 50) + ", not the wrapped strategy's own Compute result"
+				}
+			} else if isCall {
+				if !strings.HasSuffix(calleeName(info, call), "asset.SnapshotsAsClosings") {
+					why = "the second stream is " + short(exprString(o), 50) + ", not the closings of the snapshots"
+				}
+			} else {
+				why = "the second stream is " + short(exprString(o), 50) + ", not the closings of the snapshots"
+			}
+		}
+		if streams == 0 && why == "" {
+			why = "the stage takes no stream (undecided, fails closed)"
+		}
+		run.Oblige(why == "")
+		if why != "" {
+			c.violate("decorator-input", site, short(why, 60), stage.Pos(), why)
+		}
+	}
+	run.Count("decorator_stages", n)
+	run.Floor("decorator_stages", 3)
 }
